@@ -1,7 +1,7 @@
 """C18 - stand-alone stacks and queues are linearizable bounded LIFO / FIFO.
 Stacks: complete critical sections (sufficient for mutual exclusion => histories are interleavings of whole operations).
 Queues: thin wrappers => structural delegation checks (their concurrency behaviour is C01/C02's clauses)."""
-import ts, guards, lockrules, roles as R, facts as F
+import ts, guards, lockrules, util, roles as R, facts as F
 from mir import op_local, op_int, op_place
 
 LEVEL = "other"
@@ -122,23 +122,11 @@ def check_guard(ctx, key, body, adt, op):
         ctx.ob("R18.4", f"{key}|{'full' if op == 'push' else 'empty'}-guard", False, f"{body.f['file']}:{body.f['line']}", "no recognisable full/empty guard on `head`")
 
 def returns_const(body, start, kind, val):
-    """every return reachable from `start` without re-entering the loop header assigns _0 that constant"""
-    seen = set(); st = [start]; ok = True; any_ret = False
-    while st:
-        b = st.pop()
-        if b in seen: continue
-        seen.add(b)
-        for s_ in body.stmts(b):
-            if s_[0] == "A" and not s_[1]["p"] and s_[1]["l"] == 0:
-                rv = s_[2]
-                any_ret = True
-                if kind == "bool": ok &= (rv[0] == "Use" and rv[1][0] == "k" and rv[1][1].get("int") == val)
-                else: ok &= (rv[0] == "Agg" and rv[1][0] == "Adt" and rv[1][3] == val)
-                break
-        else:
-            for s2 in body.succ(b): st.append(s2)
-            continue
-    return ok and any_ret
+    """every answer on the paths through `start` is that constant (flag-aware: the answer may be parked in a local until after the unlock)"""
+    import dag as D_
+    vals = util.returned_values(body, D_.Dag(body), start)
+    want = ("const", val) if kind == "bool" else ("variant", val)
+    return vals == {want}
 
 def queues(ctx, eng):
     fx = ctx.fx
